@@ -122,3 +122,39 @@ package runner
 //@        && i.Meta.Functions["env"] == "getEnv" && i.Meta.Functions["envInt"] == "getEnvInt" && i.Meta.Functions["todo"] == "paramTodo"
 //@   ensures [rest_of_meta_kept] i.Meta.Pkg == old(i.Meta.Pkg) && i.Meta.ContainerType == old(i.Meta.ContainerType) && i.Meta.ContainerConstructor == old(i.Meta.ContainerConstructor)
 //@        && i.Meta.DefaultMustGetter == old(i.Meta.DefaultMustGetter) && i.Meta.Imports == old(i.Meta.Imports)
+
+// ---- C12: the printer. Indent/EndIndent are a stack; EndIndent needs a matching Indent (StepVerboseSwitchable.Run
+// is proved to pair them); an aligned line must fit the row (the step names are short constants of the composition
+// root: evaluated, not proved).
+//@ func (*Printer).Indent
+//@   property C12 C10
+//@   modifies p.indents
+//@   ensures [pushed] len(p.indents) == len(old(p.indents)) + 1
+//@ func (*Printer).EndIndent
+//@   property C12 C10
+//@   requires [balanced] len(p.indents) > 0
+//@   modifies p.indents
+//@   ensures [popped] len(p.indents) == len(old(p.indents)) - 1
+//@ func (*Printer).Println
+//@   property C12 C10
+//@   requires [wired] p.writer != nil
+//@ func (*Printer).PrintAlignedLn
+//@   property C12 C10
+//@   requires [wired] p.writer != nil
+//@   requires [fits_the_row] runeLen(left + (len(extra) > 0 ? extra[0] : "") + strings.Join(p.indents, "")) <= 60
+
+// the DI container calls this decorator only for services tagged step-runner-verbose
+//@ func DecorateStepVerboseSwitchable
+//@   property C12
+//@   trusted "composition root: the unchecked assertion payload.Service.(Step) relies on every service tagged step-runner-verbose implementing Step, which is a fact of internal/gontainer/gontainer_runner.yaml (evaluated by the composition test, not proved)"
+
+// C12 / C09: reading the configuration never panics; files are folded into *i with input.Merge in the order
+// (pattern order, findFiles order). (The fold itself is not specified here; see DESIGN.md, C09.)
+//@ func (*StepReadConfig).Run
+//@   property C12 C09
+//@   requires [wired] s.printer != nil && i != nil
+//@   modifies *i
+//@   loop 1
+//@     invariant [processed_nonnil] processed != nil
+//@   loop 2
+//@     invariant [processed_nonnil] processed != nil
